@@ -55,6 +55,7 @@ type Thread struct {
 	nchild int
 	H      uint64 // happens-before fingerprint of everything this thread has observed
 	Tag    string // free for the harness (role of the thread)
+	rheld  map[*RWMutex]int // read locks this thread holds (recursive read locking, see Sched.LockHazard)
 }
 
 func (t *Thread) Pending() string { return t.kind.String() + ":" + t.label }
@@ -101,6 +102,13 @@ type Sched struct {
 	TraceH uint64
 
 	Panic      interface{} // first panic of a managed thread
+	// LockHazard describes the first state in which a thread that holds a read lock of an RWMutex is about to
+	// read-lock it again while another thread is about to write-lock it. The shim grants locks in every order the
+	// memory model allows and does not model that sync.RWMutex makes new readers wait once a writer has called Lock;
+	// under that rule this very state deadlocks in production: the writer announces itself, the inner RLock waits
+	// for the writer, the writer waits for the outer read lock ("recursive read locking" in the sync documentation).
+	// Both steps are ordinary next steps of the two threads, so the deadlock is reachable, not hypothetical.
+	LockHazard string
 	PanicStack []byte
 }
 
@@ -431,6 +439,22 @@ func (s *Sched) isEnabled(t *Thread) bool {
 //go:norace
 func (s *Sched) Enabled() []*Thread {
 	var res []*Thread
+	if s.LockHazard == "" {
+		for _, t := range s.threads {
+			if t.exited || t.kind != OpRLock {
+				continue
+			}
+			m, ok := t.obj.(*RWMutex)
+			if !ok || t.rheld[m] == 0 || m.writer {
+				continue
+			}
+			for _, w := range s.threads {
+				if w != t && !w.exited && w.kind == OpLock && w.obj == interface{}(m) {
+					s.LockHazard = "thread " + t.Name + " holds a read lock and is about to read-lock the same RWMutex again while thread " + w.Name + " is about to write-lock it: sync.RWMutex blocks new readers once a writer waits, the writer waits for the outer read lock - both block forever"
+				}
+			}
+		}
+	}
 	if r := s.running; r != nil && s.isEnabled(r) {
 		res = append(res, r)
 	}
@@ -665,6 +689,10 @@ func (m *RWMutex) RLock() {
 	t := s.running
 	s.park(t, OpRLock, m, "rw.RLock")
 	m.readers++
+	if t.rheld == nil {
+		t.rheld = map[*RWMutex]int{}
+	}
+	t.rheld[m]++
 	t.H = mix(t.H, *s.oh(m))
 	m.real.RLock()
 }
@@ -681,6 +709,9 @@ func (m *RWMutex) RUnlock() {
 	}
 	m.real.RUnlock()
 	m.readers--
+	if t := s.running; t != nil && t.rheld[m] > 0 {
+		t.rheld[m]--
+	}
 	h := s.oh(m)
 	*h = mix(*h, s.running.H)
 }
